@@ -89,7 +89,17 @@ def guard(ctx, what, fn, allowed=()):
 def run_set(case, ctx):
     init = case["init"]
     ref = set(init or [])
-    s = guard(ctx, "SortedSet/init", lambda: SortedSet(list(init)) if init is not None else SortedSet())
+    src0 = None
+    if init is None:
+        s = guard(ctx, "SortedSet/init", lambda: SortedSet())
+    elif case.get("form") == "sortedset":
+        src0 = guard(ctx, "SortedSet/init", lambda: SortedSet(list(init)))
+        s = guard(ctx, "SortedSet/init-from-SortedSet", lambda: SortedSet(src0))
+    else:
+        src = list(init)
+        s = guard(ctx, "SortedSet/init", lambda: SortedSet(src))
+        src.clear()                # the caller goes on using its own list
+        src.append(-7)
     if init is not None and len(init) == 0:
         ctx.label("empty-init")
         ctx.nontrivial = True
@@ -170,6 +180,10 @@ def run_set(case, ctx):
         else:
             raise AssertionError(k)
         observe(k)
+    if src0 is not None:
+        left = guard(ctx, "SortedSet/iter", lambda: take(src0, len(init) + 2))
+        ctx.need(left == sorted(set(init)), "SortedSet/init-from-SortedSet/source-changed",
+                 lambda: "the set the new one was built from now holds %r, it was built from %r" % (left, sorted(set(init))))
     if len(muts) >= 3 and is_mixed(muts):
         ctx.label("mixed-mutations")
         ctx.nontrivial = True
@@ -184,12 +198,22 @@ def run_map(case, ctx):
     else:
         pairs = [tuple(p) for p in init]
         ref = dict(pairs)
+        src0 = None
         if form == "dict":
-            m = guard(ctx, "SortedMap/init-dict", lambda: SortedMap(dict(pairs)))
+            src = dict(pairs)
+            m = guard(ctx, "SortedMap/init-dict", lambda: SortedMap(src))
+            src.clear()            # the caller goes on using its own containers: the map holds its own copy
+            src[-7] = "late"
         elif form == "gen":
             m = guard(ctx, "SortedMap/init-generator", lambda: SortedMap(p for p in pairs))
+        elif form == "sortedmap":
+            init_pairs = list(pairs)
+            src0 = guard(ctx, "SortedMap/init-pairs", lambda: SortedMap(list(init_pairs)))
+            m = guard(ctx, "SortedMap/init-from-SortedMap", lambda: SortedMap(src0))
         else:
-            m = guard(ctx, "SortedMap/init-pairs", lambda: SortedMap(list(pairs)))
+            src = list(pairs)
+            m = guard(ctx, "SortedMap/init-pairs", lambda: SortedMap(src))
+            src.clear()
         if len(pairs) == 0:
             ctx.label("empty-init")
             ctx.nontrivial = True
@@ -338,6 +362,12 @@ def run_map(case, ctx):
         else:
             raise AssertionError(k)
         observe(k)
+    if init is not None and form == "sortedmap":
+        # two maps, one built from the other, are independent: the source still holds exactly the initial pairs
+        left = guard(ctx, "SortedMap/items", lambda: take(src0.items(), len(init_pairs) + 2))
+        ctx.need(left == sorted(dict(init_pairs).items()), "SortedMap/init-from-SortedMap/source-changed",
+                 lambda: "the map the new one was built from now holds %r, it was built from %r" % (left, sorted(dict(init_pairs).items())))
+        ctx.label("built-from-another-sorted-map")
     if len(muts) >= 3 and is_mixed(muts):
         ctx.label("mixed-mutations")
         ctx.nontrivial = True
@@ -362,11 +392,11 @@ def strategies(tier):
     num = st.sampled_from(NUMS)
     hist = st.one_of(codes(0, 10), codes(12, 40))
     set_init = st.one_of(st.none(), st.just([]), st.lists(num, max_size=8), st.lists(st.sampled_from([1, 1.0, True, 0, -0.0, False, 2]), min_size=2, max_size=6))
-    set_case = st.fixed_dictionaries({"src": st.just("drawn"), "kind": st.just("set"), "init": set_init, "ops": hist.map(lambda cs: [dec_set(c) for c in cs])})
+    set_case = st.fixed_dictionaries({"src": st.just("drawn"), "kind": st.just("set"), "init": set_init, "form": st.sampled_from(["list", "list", "sortedset"]), "ops": hist.map(lambda cs: [dec_set(c) for c in cs])})
     pair = st.tuples(num, st.integers(0, 49)).map(list)
     pair_rep = st.tuples(st.sampled_from([1, 1.0, True, 0, -0.0, 2, 0.5]), st.integers(0, 49)).map(list)
     map_init = st.one_of(st.none(), st.just([]), st.lists(pair, max_size=8), st.lists(pair_rep, min_size=2, max_size=6))
-    map_case = st.fixed_dictionaries({"src": st.just("drawn"), "kind": st.just("map"), "init": map_init, "form": st.sampled_from(["pairs", "pairs", "dict", "gen"]),
+    map_case = st.fixed_dictionaries({"src": st.just("drawn"), "kind": st.just("map"), "init": map_init, "form": st.sampled_from(["pairs", "pairs", "dict", "gen", "sortedmap", "sortedmap"]),
                                       "ops": hist.map(lambda cs: [dec_map(c) for c in cs])})
     n = 3000000 if big else 30000
     return [("sets", set_case, n // 2), ("maps", map_case, n // 2)]
